@@ -6,6 +6,7 @@ import os
 from hypothesis import strategies as st
 
 import buckets
+import fsnap
 import gem
 import gpgfix
 import harness
@@ -100,6 +101,9 @@ def case(draw):
         'edits': draw(updgen.edits(state, max_ops=3, min_ops=1)),
         'hashes': ['SHA256'],
         'force': draw(st.integers(0, 3)) != 0,
+        # a sub-Manifest (referenced from the top-level one) that itself
+        # carries a valid cleartext signature
+        'sub_signed': draw(st.integers(0, 2)) == 0,
     }
 
 
@@ -109,6 +113,37 @@ def strat(tier):
 
 def has_armor(text):
     return any(ln.startswith('-----') for ln in text.split('\n'))
+
+
+def sign_a_sub_manifest(root, desc, fx):
+    """Replace one sub-Manifest that the top-level Manifest references by a
+    cleartext-signed version of itself and fix the reference.  Returns its
+    path or None."""
+    top = os.path.join(root, 'Manifest')
+    with open(top) as f:
+        lines = f.read().split('\n')
+    for i, ln in enumerate(lines):
+        toks = ln.split()
+        if len(toks) >= 3 and toks[0] == 'MANIFEST':
+            v, rel = R.decode_path_token(toks[1])
+            if v != R.ACCEPT:
+                continue
+            fmt = R.compression_of(rel)
+            p = os.path.join(root, rel)
+            with open(p, 'rb') as f:
+                plain = R.decompress(f.read(), fmt).decode('utf8')
+            signed = fx['full'].clearsign(plain, keyid=fx['A'])
+            data = R.compress(signed.encode('utf8'), fmt)
+            with open(p, 'wb') as f:
+                f.write(data)
+            names = toks[3::2]
+            e = R.Entry('MANIFEST', path=rel, size=len(data),
+                        checksums=R.digests(data, names))
+            lines[i] = e.to_line()
+            with open(top, 'w') as f:
+                f.write('\n'.join(lines))
+            return rel
+    return None
 
 
 def run_case(desc):
@@ -121,6 +156,9 @@ def run_case(desc):
         treegen.materialize(desc['tree'], root)
         layout.write_manifests(desc['manifests'], root)
         top = os.path.join(root, 'Manifest')
+        sub_signed = None
+        if desc.get('sub_signed'):
+            sub_signed = sign_a_sub_manifest(root, desc, fx)
         orig_signed = desc['orig'] != 'unsigned'
         if orig_signed:
             with open(top) as f:
@@ -133,6 +171,7 @@ def run_case(desc):
         st_before = os.stat(top)
         with open(top, 'rb') as f:
             raw_before = f.read()
+        snap_before = fsnap.snapshot(root)
         keyid = {None: None, 'A': fx['A'], 'B': fx['B'],
                  'unknown': 'DEADBEEFDEADBEEFDEADBEEFDEADBEEFDEADBEEF'}[
             desc['keyid']]
@@ -140,6 +179,11 @@ def run_case(desc):
         api = desc['api']
         if api == 'cli' and not verify:
             api = 'lib'
+        if sub_signed and desc['home'] == 'empty' and verify:
+            # the signed sub-Manifest cannot be verified either
+            expect_load_failure_sub = True
+        else:
+            expect_load_failure_sub = False
         classes = ['orig:' + desc['orig'], f'sign:{desc["sign"]}',
                    f'key:{desc["keyid"]}', 'home:' + desc['home'],
                    'api:' + api] + list(desc['tags'])
@@ -182,6 +226,10 @@ def run_case(desc):
         what = (f'update via {api}: originally {desc["orig"]}, sign='
                 f'{desc["sign"]}, key id {desc["keyid"]}, home '
                 f'{desc["home"]}')
+        if sub_signed:
+            classes.append('signed-sub-manifest')
+        if expect_load_failure_sub and not expect_load_failure:
+            return ok(classes=classes + ['sub-load-failed'])
         if expect_load_failure:
             if oc.kind == 'return' and api == 'lib':
                 return violation(
@@ -198,13 +246,16 @@ def run_case(desc):
             text = raw.decode('utf8')
         except UnicodeDecodeError:
             text = raw.decode('latin-1')
-        # sub-Manifests are never signed
+        # sub-Manifests are never written signed
+        written = set(fsnap.changed_paths(fsnap.diff(
+            snap_before, fsnap.snapshot(root))))
         for mf in desc['manifests']:
             if mf['p'] == 'Manifest':
                 continue
             for suf in R.SUFFIXES:
-                p = os.path.join(root, R.strip_compression(mf['p']) + suf)
-                if os.path.exists(p):
+                relp = R.strip_compression(mf['p']) + suf
+                p = os.path.join(root, relp)
+                if os.path.exists(p) and relp in written:
                     with open(p, 'rb') as f:
                         sub = R.decompress(f.read(), suf[1:] or None)
                     if has_armor(sub.decode('utf8', 'replace')):
